@@ -376,7 +376,12 @@ func opVis(a map[string]interface{}) (string, string, interface{}) {
 	if err.ErrorCode != tree.PARSING_NO_ERROR {
 		return "err", err.ErrorCode, J{"outlen": len(out)}
 	}
-	return "ok", "", J{"out": out, "json": json.Valid([]byte(out))}
+	obs := J{"out": out, "json": json.Valid([]byte(out))}
+	if aBool(a, "withparse") {
+		_, _, po := opParse(map[string]interface{}{"text": aStr(a, "text")})
+		obs["parse"] = po
+	}
+	return "ok", "", obs
 }
 
 // conv: both endpoints on one input (C10/C11/C12): statuses, error codes, output digests.
